@@ -879,3 +879,132 @@ Proof.
     (destruct (def_of cfg pt) as [d|]; [|cbn [fst snd is_ok_true andb]; reflexivity]);
     cbn [fst snd] in *; rewrite notify_wlog, notify_snapshot, C2, C3, C4; reflexivity.
 Qed.
+
+(* ---------- SavePolicy followed by LoadPolicy reproduces the rules in the same per-type order ---------- *)
+Definition loadable (d : adef) (r : rule) : Prop :=
+  wf_rule r = true /\ (if a_is_g d then a_arity d <= List.length r else List.length r = a_arity d).
+
+(* invariant used while loading: every store coherent and well-formed *)
+Definition SInv (m : smap store) : Prop := forall pt, Inv (mget m pt).
+
+Lemma load_block cfg pt d : def_of cfg pt = Some d -> a_prio d = None ->
+  forall l m, SInv m -> NoDup (pol (mget m pt) ++ l) -> (forall r, In r l -> loadable d r) ->
+  exists m', load_all cfg m (map (fun r => (pt, r)) l) = Some m' /\ SInv m' /\
+    pol (mget m' pt) = pol (mget m pt) ++ l /\ (forall pt', pt' <> pt -> mget m' pt' = mget m pt').
+Proof.
+  intros Hd Hp. induction l as [|r t IH]; intros m I ND Hl; cbn [map load_all].
+  - exists m. rewrite app_nil_r. auto.
+  - destruct (Hl r (or_introl eq_refl)) as [Wr Har]. cbn [load_one]. rewrite Hd.
+    assert (Echk : (if a_is_g d then Nat.ltb (List.length r) (a_arity d) else negb (Nat.eqb (List.length r) (a_arity d))) = false).
+    { destruct (a_is_g d); [apply Nat.ltb_ge; exact Har|rewrite Har, Nat.eqb_refl; reflexivity]. }
+    rewrite Echk. fold (mget m pt).
+    assert (Nr : ~ In r (pol (mget m pt))).
+    { intros H. apply NoDup_remove_2 in ND. apply ND. apply in_or_app. left. exact H. }
+    assert (Hh : has (mget m pt) r = false).
+    { apply not_true_iff_false. intros H. apply Nr. apply (has_iff_In _ _ (I pt) Wr). exact H. }
+    rewrite Hh, Hp.
+    set (m1 := set pt (add None (mget m pt) r) (del pt m)).
+    assert (E1 : pol (mget m1 pt) = pol (mget m pt) ++ [r]).
+    { unfold m1. rewrite mget_set_del, String.eqb_refl. reflexivity. }
+    assert (I1 : SInv m1).
+    { intros pt'. unfold m1. rewrite mget_set_del. destruct (String.eqb pt' pt); [apply add_Inv; [apply I|exact Wr|exact Hh]|apply I]. }
+    destruct (IH m1 I1) as [m' [L [I' [P' O']]]].
+    + rewrite E1, <- app_assoc. exact ND.
+    + intros x Hx. apply Hl. right. exact Hx.
+    + exists m'. split; [exact L|]. split; [exact I'|]. split.
+      * rewrite P', E1, <- app_assoc. reflexivity.
+      * intros pt' Hne. rewrite (O' pt' Hne). unfold m1. rewrite mget_set_del.
+        apply String.eqb_neq in Hne. rewrite Hne. reflexivity.
+Qed.
+
+Lemma load_all_app cfg c1 : forall c2 m m1, load_all cfg m c1 = Some m1 -> load_all cfg m (c1 ++ c2) = load_all cfg m1 c2.
+Proof.
+  induction c1 as [|x t IH]; intros c2 m m1 H; cbn [load_all app] in *; [inversion H; reflexivity|].
+  destruct (load_one cfg m x) as [m0|]; [|discriminate]. apply IH. exact H.
+Qed.
+
+(* loading what SavePolicy stored: every type gets its own rules back, in order *)
+Lemma load_saved cfg0 s : forall cfg m, (forall pt d, In (pt, d) cfg -> def_of cfg0 pt = Some d /\ a_prio d = None) ->
+  NoDup (map fst cfg) -> SInv m ->
+  (forall pt, In pt (map fst cfg) -> pol (mget m pt) = []) ->
+  (forall pt, Inv (get_store s pt)) ->
+  (forall pt d r, In (pt, d) cfg -> In r (pol (get_store s pt)) -> loadable d r) ->
+  exists m', load_all cfg0 m (all_prules cfg s) = Some m' /\ SInv m' /\
+    (forall pt, In pt (map fst cfg) -> pol (mget m' pt) = pol (get_store s pt)) /\
+    (forall pt, ~ In pt (map fst cfg) -> mget m' pt = mget m pt).
+Proof.
+  induction cfg as [|[k dk] t IH]; intros m Hdef NDc I Hempty Is Hl; cbn [all_prules flat_map map fst].
+  - exists m. cbn [load_all]. split; [reflexivity|]. split; [exact I|]. split; [intros pt []|auto].
+  - inversion NDc as [|? ? Nk NDt]; subst.
+    destruct (Hdef k dk (or_introl eq_refl)) as [Hd Hp].
+    destruct (load_block cfg0 k dk Hd Hp (pol (get_store s k)) m I) as [m1 [L1 [I1 [P1 O1]]]].
+    + rewrite (Hempty k (or_introl eq_refl)). cbn [app]. apply Inv_NoDup. apply Is.
+    + intros r Hr. apply (Hl k dk r (or_introl eq_refl) Hr).
+    + destruct (IH m1) as [m' [L [I' [P' O']]]]; try assumption.
+      * intros pt d Hin. apply Hdef. right. exact Hin.
+      * intros pt Hin. rewrite (O1 pt); [apply Hempty; right; exact Hin|]. intros ->. contradiction.
+      * intros pt d r Hin. apply Hl. right. exact Hin.
+      * exists m'. split; [|split; [exact I'|split]].
+        -- cbn [fst]. fold (all_prules t s). rewrite (load_all_app cfg0 _ _ m m1 L1). exact L.
+        -- intros pt [<-|Hin]; [|apply P'; exact Hin].
+           rewrite (O' k Nk), P1, (Hempty k (or_introl eq_refl)). reflexivity.
+        -- intros pt Hn. rewrite (O' pt); [|intros H; apply Hn; right; exact H].
+           apply O1. intros ->. apply Hn. left. reflexivity.
+Qed.
+
+Lemma sort_stores_noprio cfg m : (forall pt d, def_of cfg pt = Some d -> a_prio d = None) ->
+  forall pt, mget (sort_stores cfg m) pt = mget m pt.
+Proof.
+  intros Hn pt. unfold mget, sort_stores. induction m as [|[k st] t IH]; cbn [map lookup]; [reflexivity|].
+  destruct (def_of cfg k) as [d|] eqn:Hd.
+  - rewrite (Hn k d Hd). cbn [lookup]. destruct (String.eqb pt k); [reflexivity|exact IH].
+  - cbn [lookup]. destruct (String.eqb pt k); [reflexivity|exact IH].
+Qed.
+
+(* SavePolicy followed by LoadPolicy: the same rules in the same per-type order, for every state
+   whose listed rules could themselves have been loaded (no priority column: a load sorts) *)
+Theorem save_load_roundtrip cfg s : NoDup (map fst cfg) ->
+  (forall pt d, def_of cfg pt = Some d -> a_prio d = None) ->
+  (forall pt, Inv (get_store s pt)) ->
+  (forall pt d r, def_of cfg pt = Some d -> In r (pol (get_store s pt)) -> loadable d r) ->
+  snd (save_policy cfg s) = ROk true ->
+  let s1 := fst (save_policy cfg s) in
+  forall pt, In pt (map fst cfg) -> pol (get_store (fst (load_policy cfg s1)) pt) = pol (get_store s pt).
+Proof.
+  intros NDc Hnp Is Hl Hok s1 pt Hpt.
+  assert (Sm1 : same_mem s s1) by (apply save_policy_mem).
+  assert (Ec : content (ad s1) = all_prules cfg s).
+  { unfold s1, save_policy in *. destruct (adapter_call (ad s) (ASave (all_prules cfg s))) as [[a ok] old] eqn:Ea.
+    destruct (adapter_call_content _ _ _ _ _ Ea) as [C1 _]. destruct ok; cbn [negb] in *; [|discriminate].
+    cbn [with_ad watcher]. destruct (watcher s); cbn [fst ad with_ad]; rewrite (C1 eq_refl); reflexivity. }
+  destruct (load_policy_res cfg s1) as [E|E].
+  - rewrite (proj1 (load_policy_fail cfg s1 E) pt). rewrite (proj1 Sm1 pt). reflexivity.
+  - unfold load_policy in *. destruct (adapter_call (ad s1) ALoad) as [[a ok] old] eqn:Ea.
+    destruct (adapter_call_content _ _ _ _ _ Ea) as [C1 _].
+    destruct ok; cbn [negb] in *; [|discriminate].
+    assert (Eca : content a = all_prules cfg s) by (rewrite (C1 eq_refl); cbn [content_after fst]; exact Ec).
+    rewrite Eca in *.
+    destruct (load_saved cfg s cfg []) as [m' [L [I' [P' _]]]].
+    + intros k d Hin. pose proof (In_lookup k d cfg NDc Hin) as Hd. split; [exact Hd|apply (Hnp k d Hd)].
+    + exact NDc.
+    + intros k. apply empty_Inv.
+    + intros k _. reflexivity.
+    + exact Is.
+    + intros k d r Hin Hr. apply (Hl k d r (In_lookup k d cfg NDc Hin) Hr).
+    + rewrite L in *. destruct (rebuild_links cfg (sort_stores cfg m') cfg) as [ls lok].
+      destruct lok; cbn [negb] in *; [|discriminate]. cbn [fst].
+      unfold get_store at 1. cbn [stores]. fold (mget (sort_stores cfg m') pt).
+      rewrite (sort_stores_noprio cfg m' Hnp pt). apply P'. exact Hpt.
+Qed.
+
+(* a peer that reloads from the shared adapter reaches the originator's rules (as sets, per type) *)
+Theorem peer_converges cfg s p : NoDup (map fst cfg) -> Sync cfg s ->
+  content (ad p) = content (ad s) -> content_ok cfg (content (ad p)) ->
+  snd (load_policy cfg p) = ROk true ->
+  forall pt d r, def_of cfg pt = Some d ->
+    (In r (pol (get_store (fst (load_policy cfg p)) pt)) <-> In r (pol (get_store s pt))).
+Proof.
+  intros NDc K Ec Hc Hok pt d r Hd.
+  pose proof (load_policy_Sync cfg p NDc Hc Hok) as Kp.
+  rewrite <- (proj2 Kp pt d r Hd), load_policy_content, Ec. apply (proj2 K pt d r Hd).
+Qed.
